@@ -203,6 +203,10 @@ func runCase(spec gen10.ClusterSpec, entry string, nbrs []nbrSpec) (o outcome) {
 	bt := gen10.Build(spec)
 	defer bt.Cancel()
 	menv := buildMenv(bt, entry, nbrs)
+	if bt.RestartDiff != "" {
+		o.viol = append(o.viol, res.Violation{Sig: "C10:rule-manager-restart-changes-placement-fit", Desc: bt.RestartDiff,
+			Replay: map[string]interface{}{"Spec": spec, "Entry": entry, "Nbrs": nbrs}})
+	}
 	// differential check of every store predicate read back from the real objects against the independent oracle
 	for _, d := range bt.PredicateDiffs() {
 		sig := "C10:store-predicate-misjudged:" + d[0]
